@@ -1489,7 +1489,7 @@ class Net(Stream):
         dis, kinds = [], {}
         for cid, (sc, line) in info.items():
             m = model.get(cid, "MISSING")
-            why = NG.timed_model_vs_oracle(sc, sc.queries[0], m)
+            why = NG.timed_model_vs_oracle(sc, sc.queries[0], m, wire_only=(self.focus == "wire"))
             k = (m.split(" T=")[0].split("EV=")[-1] + " " + re.sub(r"^ok:.*", "ok", m.split(" R=")[-1]))[:40]
             kinds[k] = kinds.get(k, 0) + 1
             if why:
